@@ -34,6 +34,7 @@ fn main() {
                 "C08" => c08::run(seed, thorough, &mut out),
                 "C09" => c09::run(seed, thorough, &mut out),
                 "C10" => c10::run(seed, thorough, &mut out),
+                "C11" => c11::run(seed, thorough, &mut out),
                 "C16" => c16::run(seed, thorough, 16, &mut out),
                 "C19" => c19::run(seed, thorough, &mut out),
                 "C20" => c20::run(seed, thorough, &mut out),
@@ -79,6 +80,7 @@ fn main() {
                     "C08" => c08::replay(line, &mut out),
                     "C09" => c09::replay(line, &mut out),
                     "C10" => c10::replay(line, &mut out),
+                    "C11" => c11::replay(line, &mut out),
                     "C16" => c16::replay(line, 16, &mut out),
                     "C19" => c19::replay(line, &mut out),
                     "C20" => c20::replay(line, &mut out),
